@@ -3,12 +3,14 @@ C18 — The remote end runs the client's own code with the client's options.
 
 Property theorems only; helper lemmas are in `Lemmas/Bootstrap.lean` (buffered reader,
 decimal), `Lemmas/BootstrapFraming.lean` (assembler loop, `packList`),
-`Lemmas/BootstrapOptions.lean` (`%r` / literal evaluation), `Lemmas/BootstrapInstances.lean`
+`Lemmas/BootstrapOptions.lean` (`%r` / literal evaluation), `Lemmas/BootstrapUtf8.lean`,
+`Lemmas/BootstrapInstances.lean`
 (the regenerated values and source shapes of the working tree, pinned).
 -/
 import SshuttleModel.Spec.Bootstrap
 import SshuttleModel.Lemmas.BootstrapInstances
 import SshuttleModel.Lemmas.BootstrapOptions
+import SshuttleModel.Lemmas.BootstrapUtf8
 
 namespace Sshuttle.Bootstrap
 
@@ -236,16 +238,19 @@ theorem C18_options_text (np : Nat → Bool) (opts : List (List Nat × Val))
     evalOptions ((renderOptions np opts).length + 1) (renderOptions np opts) = some opts :=
   evalOptions_render np opts hk hv _ (by have := renderOptions_length np opts; omega)
 
-/-- The bytes on the wire: rendering, `encode("UTF8")`, the remote decoding of the module
-source and its evaluation compose to the identity, given that the UTF-8 codec round-trips
-the rendered text (`hutf8`; true for every text without lone surrogates — `repr` escapes
-those — and checked against the interpreter on every run, not proved here). -/
-theorem C18_options_partial (np : Nat → Bool) (opts : List (List Nat × Val))
+/-- **Options on the wire.**  Rendering, `encode("UTF8")`, the remote decoding of the module
+source and its evaluation compose to the identity: whenever the client manages to encode
+the rendered options (it always does for what `repr` leaves unescaped: lone surrogates are
+not printable), the remote `sshuttle.cmdline_options` holds exactly the client's keys and
+values. -/
+theorem C18_options_wire (np : Nat → Bool) (opts : List (List Nat × Val))
     (hk : ∀ kv ∈ opts, 61 ∉ kv.1 ∧ 10 ∉ kv.1) (hv : ValidOpts opts) (wire : Bytes)
-    (_henc : optdataOf np opts = some wire)
-    (hutf8 : decodeUtf8 (wire.length + 1) wire = some (renderOptions np opts)) :
+    (henc : optdataOf np opts = some wire) :
     Option.map (Spec.SameOptions opts) (remoteOptions wire) = some True := by
-  simp only [remoteOptions, hutf8, C18_options_text np opts hk hv, Option.map_some, Spec.SameOptions]
+  unfold optdataOf at henc
+  have hdec := decodeUtf8_encode _ wire henc (wire.length + 1)
+    (by have := encodeUtf8_length _ wire henc; omega)
+  simp only [remoteOptions, hdec, C18_options_text np opts hk hv, Option.map_some, Spec.SameOptions]
 
 /-- Non-vacuity: the five real keys with a value of each kind, a string with both quotes,
 a backslash, a newline, é and a non-printable U+FFFE, through the UTF-8 wire format. -/
